@@ -370,7 +370,9 @@ def classify(t, f):
     a, sc, o = t['aspect'], t['sc'], t['obs']
     e = o['error']
     if o['status'].startswith('py-'):
-        cause = ('tc-of-tc-mro' if 'method resolution' in e else 'type-used-before-definition' if 'is not defined' in e else
+        order = mibs.type_order_witness({'m': t['text']}, e) if 'is not defined' in e else ''
+        cause = ('tc-of-tc-mro' if 'method resolution' in e else
+                 ('type-used-before-definition' if order in ('declared-before-parent', 'plain-from-tc') else 'type-emitted-out-of-order;' + order) if order else
                  'plain-type-not-exported' if 'No symbol' in e else 'bits-defval-template' if ('Jinja template' in e and 'BITS' in json.dumps(sc)) else 'other')
         return 'pysnmp;%s' % cause
     if a == 'defval':
